@@ -2,6 +2,7 @@
 from __future__ import annotations
 
 import dataclasses
+import inspect
 import sys
 import typing
 
@@ -28,8 +29,8 @@ ASSUMPTIONS = [
     "a step budget (sys.monitoring PY_START events) decides termination; wall-clock is only a watchdog",
 ]
 PLAN = {"quick": dict(programs=500, topologies=1400, depth=3), "thorough": dict(programs=12000, topologies=40000, depth=5)}
-FLOORS = {"quick": {"sequences_checked": 15000, "deferred_nodes_seen": 3000, "equivalences_checked": 3000, "topology_roots": 8000, "same_name_two_module_topologies": 200, "bare_and_parameterised_roots": 2000},
-          "thorough": {"sequences_checked": 400000, "deferred_nodes_seen": 80000, "equivalences_checked": 80000, "topology_roots": 200000, "bare_and_parameterised_roots": 50000}}
+FLOORS = {"quick": {"sequences_checked": 15000, "deferred_nodes_seen": 3000, "equivalences_checked": 3000, "topology_roots": 8000, "same_name_two_module_topologies": 200, "bare_and_parameterised_roots": 2000, "two_labels_one_type_roots": 1500},
+          "thorough": {"sequences_checked": 400000, "deferred_nodes_seen": 80000, "equivalences_checked": 80000, "topology_roots": 200000, "bare_and_parameterised_roots": 50000, "two_labels_one_type_roots": 40000}}
 STEP_BUDGET = 2_000_000
 
 
@@ -227,6 +228,23 @@ def run_shard(sh):
                     setattr(prog.module, Mixed.__name__, Mixed)
                     sh.count("bare_and_parameterised_roots")
                     check_root(sh, f"dataclass Mixed({', '.join(k for k, _ in order)}) over {bare} and {s.src}", Mixed, steps, prog.source)
+                # two different labels (NewTypes / aliases) of one composite type in the same graph
+                comps = [s for r in roots for s in r.walk() if s.kind in ("coll", "mapping", "struct", "fixed") and not isinstance(s.t, str)]
+                for s in rng.sample(comps, min(2, len(comps))):
+                    def label(tag):
+                        # created by code running in the program's own module, as user code would
+                        ctor = rng.choice(["NewType", "TypeAliasType"])
+                        name = f"L{tag}_{i}_{abs(hash(s.src)) % 10**6}"
+                        exec(f"{name} = typing.{ctor}({name!r}, {s.src})", prog.module.__dict__)  # noqa: S102
+                        return getattr(prog.module, name)
+                    la, lb = label("a"), label("b")
+                    two = [("tuple[La, Lb]", tuple[la, lb]), ("dict[str, La] | Lb", typing.Union[dict[str, la], lb]), ("tuple[La, T, Lb]", tuple[la, s.t, lb]),
+                           ("dataclass(primary: La, backup: Lb)", dataclasses.make_dataclass(f"TwoLabels_{i}_{abs(hash(s.src)) % 10**6}", [("primary", la), ("backup", lb)], module=prog.name))]
+                    for src, T in rng.sample(two, 2):
+                        if inspect.isclass(T):
+                            setattr(prog.module, T.__name__, T)
+                        sh.count("two_labels_one_type_roots")
+                        check_root(sh, f"{src} with La, Lb = two {type(la).__name__}/{type(lb).__name__} labels of {s.src}", T, steps, prog.source)
                 if i % 50 == 0:
                     sh.sample({"root": roots[0].src, "nodes": [repr(n) for n in graph.static_order(roots[0].t)][:6]})
             finally:
